@@ -460,6 +460,31 @@ pub fn run(fam: &str, t: &mut Toks) -> Option<R<String>> {
             let got = run_case(&mut c);
             Ok(if got == exp { "ok".into() } else { format!("FAIL got `{got}` but the theorem predicts `{exp}`") })
         })()),
+        "o_yield" => Some((|| {
+            // `GasLimit::per_yield` is any u64 and has no observable effect: `o_yield <k> <per_yield_1..k> prog <case>` runs the
+            // case with the default and with every listed value; all results are the same (a panic is a result that differs)
+            let pys = t.list(|t| t.u64())?;
+            if t.tok()? != "prog" {
+                return Err("o_yield family".into());
+            }
+            let c = p_case(t)?;
+            let run_with = |py: u64| -> String {
+                let mut c2 = VmCase { mode: c.mode.clone(), prog: c.prog.clone(), vm: c.vm.clone(), index: c.index, sols: c.sols.clone(),
+                    entries: c.entries.clone(), cost: c.cost.clone(), limit: c.limit, max_breadth: c.max_breadth, per_yield: py };
+                match std::panic::catch_unwind(std::panic::AssertUnwindSafe(|| run_case(&mut c2))) {
+                    Ok(r) => r,
+                    Err(_) => "panic".into(),
+                }
+            };
+            let base = run_with(GasLimit::DEFAULT_PER_YIELD);
+            for py in pys {
+                let got = run_with(py);
+                if got != base {
+                    return Ok(format!("FAIL per_yield {py} gives `{got}`, the default gives `{base}`"));
+                }
+            }
+            Ok("ok".into())
+        })()),
         "o_gas" => Some((|| {
             let mut c = p_case(t)?;
             Ok(o_gas(&mut c))
